@@ -216,9 +216,16 @@ class _Helper:
         a = fn.args
         if a.vararg or a.kwarg or a.posonlyargs:
             raise _NotInlinable("star / positional-only parameters")
+        own_names = _stored_names(fn) | {x.arg for x in a.args + a.kwonlyargs}
         for sub in ast.walk(fn):
-            if sub is not fn and isinstance(sub, (ast.FunctionDef, ast.AsyncFunctionDef, ast.ClassDef, ast.Lambda)):
+            if sub is not fn and isinstance(sub, (ast.FunctionDef, ast.AsyncFunctionDef, ast.ClassDef)):
                 raise _NotInlinable("nested scope")
+            if isinstance(sub, ast.Lambda):
+                # a lambda reads the helper's names like any expression; its own parameters must not be one of them
+                la = sub.args
+                lnames = {x.arg for x in la.args + la.kwonlyargs + la.posonlyargs} | ({la.vararg.arg} if la.vararg else set()) | ({la.kwarg.arg} if la.kwarg else set())
+                if lnames & own_names:
+                    raise _NotInlinable("nested scope (lambda parameter shadows a local)")
             if isinstance(sub, (ast.YieldFrom, ast.Await, ast.Global, ast.Nonlocal)) or (isinstance(sub, ast.Yield) and not gen):
                 raise _NotInlinable("generator / global")
             if gen and isinstance(sub, ast.Return):
